@@ -647,6 +647,9 @@ def build_level(lv: dict, problem):
         for k in ("mutation_std", "p_mutation", "k_elites", "p_crossover", "mutation_std_step", "election_group_size"):
             if k in lv:
                 kw[k] = lv[k]
+        if lv.get("mutation_std_array") and "mutation_std" in kw:
+            # a per-dimension mutation width handed over as an array (accepted wherever a scalar is: it is only broadcast)
+            kw["mutation_std"] = np.full(lv["mutation_std_array"], float(kw["mutation_std"]))
         return {"custom_ea": userdefs.TaggedEAConfig, "custom_ea2": userdefs.TaggedEAConfig2}.get(e, EALevelConfig)(
             ea_class=EA_CLASSES.get(e, _sea.SEA),
             pop_size=lv["pop"],
@@ -917,7 +920,7 @@ def _guarded(ctx, fn):
         ctx.aborted = ("exception", type(e).__name__, str(e)[:300], traceback.format_exc()[-1500:])
 
 
-def run_reuse_pair(desc: dict, make_monitors, second_seed_offset=7):
+def run_reuse_pair(desc: dict, make_monitors, second_seed_offset=7, same_np_seed=False):
     """Two trees, one after the other in the same process, the second built from the *same* configuration objects
     (level configs with their problem stacks and stop conditions, global stop condition, sprout mechanism) - the
     'repeated runs in a loop' usage.  State that leaks from the first tree into the second through a shared object
@@ -942,7 +945,7 @@ def run_reuse_pair(desc: dict, make_monitors, second_seed_offset=7):
         if opts.get("random_seed") is not None:
             opts["random_seed"] = opts["random_seed"] + second_seed_offset
         d2["options"] = opts
-        d2["np_seed"] = (desc.get("np_seed", 0) * 31 + 5) % (2**31 - 1)
+        d2["np_seed"] = desc.get("np_seed", 0) if same_np_seed else (desc.get("np_seed", 0) * 31 + 5) % (2**31 - 1)
         ctx2 = Ctx(d2, make_monitors())
         ctx2.log = ctx1.log
         ctx2.log_base = len(ctx1.log)
